@@ -53,6 +53,8 @@ class MEIExporter:
         self.current_key_signature = []
         self.flats = ["bf", "ef", "af", "df", "gf", "cf", "ff"]
         self.sharps = ["fs", "cs", "gs", "ds", "as", "es", "bs"]
+        # xml:id of a written note, rest or chord element -> (actual_notes, normal_notes)
+        self.tuplet_ratios = {}
 
     def elc_id(self):
         # transforms an integer number to 8-digit string
@@ -227,6 +229,7 @@ class MEIExporter:
                         self._handle_note_or_rest(notes[0], voice_el)
 
         self._handle_tuplets(measure_el, start=measure.start.t, end=measure.end.t)
+        self._handle_loose_tuplet_values(measure_el)
         self._handle_beams(measure_el, start=measure.start.t, end=measure.end.t)
         self._handle_clef_changes(measure_el, start=measure.start.t, end=measure.end.t)
         self._handle_ks_changes(measure_el, start=measure.start.t, end=measure.end.t)
@@ -243,6 +246,7 @@ class MEIExporter:
         for note in chord:
             duration = self._handle_note_or_rest(note, chord_el)
         chord_el.set("dur", duration)
+        self._remember_tuplet_ratio(chord_el, chord[0].symbolic_duration)
         # the importer reads the duration of a chord from the chord element: it needs the dots too
         if chord[0].symbolic_duration.get("dots"):
             chord_el.set("dots", str(chord[0].symbolic_duration["dots"]))
@@ -267,6 +271,7 @@ class MEIExporter:
         if rest.id is None:
             rest.id = "rest-" + self.elc_id()
         rest_el.set(XMLNS_ID, rest.id)
+        self._remember_tuplet_ratio(rest_el, rest.symbolic_duration)
         return duration
 
     def _handle_note(self, note, xml_voice_el):
@@ -278,6 +283,7 @@ class MEIExporter:
             if note.id is None
             else note_el.set(XMLNS_ID, note.id)
         )
+        self._remember_tuplet_ratio(note_el, note.symbolic_duration)
         if "dots" in note.symbolic_duration:
             note_el.set("dots", str(note.symbolic_duration["dots"]))
         note_el.set("oct", str(note.octave))
@@ -365,6 +371,40 @@ class MEIExporter:
             ]
             for el in xml_el_within_tuplet:
                 tuplet_el.append(el)
+
+    def _remember_tuplet_ratio(self, xml_el, symbolic_duration):
+        actual = symbolic_duration.get("actual_notes")
+        normal = symbolic_duration.get("normal_notes")
+        if actual and normal:
+            self.tuplet_ratios[xml_el.get(XMLNS_ID)] = (actual, normal)
+
+    def _handle_loose_tuplet_values(self, measure_el: lxml.etree._Element):
+        """
+        A note, rest or chord whose written value carries a tuplet ratio but that no Tuplet
+        object covers (parts from loaders that do not create Tuplet objects) would be written,
+        and loaded again, with its undivided value: wrap every run of neighbours in a layer
+        that have the same ratio in a tuplet element.
+        """
+        for layer_el in measure_el.iter("layer"):
+            run, ratio = [], None
+            for child in list(layer_el) + [None]:
+                child_ratio = (
+                    None
+                    if child is None
+                    else self.tuplet_ratios.get(child.get(XMLNS_ID))
+                )
+                if run and child_ratio != ratio:
+                    tuplet_el = etree.Element("tuplet")
+                    layer_el.insert(layer_el.index(run[0]), tuplet_el)
+                    tuplet_el.set(XMLNS_ID, "tuplet-" + self.elc_id())
+                    tuplet_el.set("num", str(ratio[0]))
+                    tuplet_el.set("numbase", str(ratio[1]))
+                    for el in run:
+                        tuplet_el.append(el)
+                    run = []
+                if child_ratio is not None:
+                    run.append(child)
+                ratio = child_ratio
 
     def _handle_beams(self, measure_el: lxml.etree._Element, start: int, end: int):
         for beam in self.part.iter_all(spt.Beam, start=start, end=end):
